@@ -263,6 +263,27 @@ def run(repo, res):
     # ---- R1 --------------------------------------------------------------------------------
     n = rule_provisional_memo(repo, res, 'C04-R1')
     res.count('memo_sites_in_guarded_extent', n, floor=2)
+    # the instances of that defect, per loop shape: which read positions of which loop constructs answer differently
+    # depending on what was asked before (supp's own Flow / LoopFlow objects on the region graphs of E1)
+    from .. import resolve_model as M
+    from .. import rules_e1 as R
+    recs, nq = M.loop_order_records(repo)
+    seen = {}
+    for cls, mode, asked, first, alone, after in recs:
+        k = '%s, %s body statements: the answer at %s depends on what was asked first' % (R.method_name(repo, cls), mode, R.gen('node.' + asked)
+                                                                                          if not asked.startswith('inside ') and asked != 'after the loop'
+                                                                                          else asked.split('[')[0] + ('[*]' if '[' in asked else ''))
+        if k in seen:
+            continue
+        seen[k] = (cls, asked, first, alone, after)
+    for k, (cls, asked, first, alone, after) in sorted(seen.items()):
+        line = R.method_line(repo, cls)
+        res.check('C04-R1', k, False, line[0], line[1],
+                  'in a %s loop, a name bound before the loop and again at the end of the body, another only at the end of the body: the read '
+                  'at %s sees (x, y) = %s when asked first, %s when the read at %s was asked before it' % (cls, asked, alone, after, first))
+    res.ob('C04-R1', 'loop shapes explored for order dependence', True, sample='%d lookups on the region graphs of for / async for / while, '
+           'compound and simple body statements; %d order-dependent shapes' % (nq, len(seen)))
+    res.count('loop_order_lookups', nq, floor=300)
     rule_memo_inventory(repo, res, 'C04-R5')
 
     # ---- R2 marker reset on every exit ----------------------------------------------------------
